@@ -202,13 +202,53 @@ let handle (line : string) : string =
     (match parse_mv (unhex hx) with
      | None -> "ERR"
      | Some m -> Printf.sprintf "OK %d %d %d" (int_of_z m.Make.mfrom) (int_of_z m.Make.mto) (kind_code m.Make.mpromo))
+  | ["ATT"; args] ->
+    (match Stdlib.List.map int_of_string (Stdlib.String.split_on_char ' ' args) with
+     | [a; f; t; bl; k] ->
+       let kind = match a land 63 with 1 -> Position.Pawn | 2 -> Position.Knight | 4 -> Position.Bishop | 8 -> Position.Rook | 16 -> Position.Queen | _ -> Position.King in
+       let col = if a land 128 <> 0 then Position.White else Position.Black in
+       let (m, s) = Abs.att_case (Position.Pc (col, kind)) (z_of_int f) (z_of_int t) (z_of_int bl) (z_of_int k) in
+       Printf.sprintf "%d %d" (if m then 1 else 0) (if s then 1 else 0)
+     | _ -> "BADREQ")
+  | ["MATE"; fen; n] ->
+    (match start_of fen with Error e -> e | Stdlib.Ok p ->
+      (match Abs.spec_mate_score (nat_of_int (int_of_string n)) p with
+       | None -> "NONE" | Some v -> "MATE " ^ string_of_int (int_of_z v)))
+  | ["MMATE"; fen; n] ->
+    (match start_of fen with Error e -> e | Stdlib.Ok p ->
+      (match Abs.model_mate_score (nat_of_int (int_of_string n)) p with
+       | None -> "NONE" | Some v -> "MATE " ^ string_of_int (int_of_z v)))
+  | ["MMATEAFTER"; fen; mv; n] ->
+    (match start_of fen with Error e -> e | Stdlib.Ok p ->
+      (match parse_mv mv with None -> "BADTEXT" | Some m ->
+        (match Uci.apply_uci p m with
+         | Base.Panic w -> panic_text w
+         | Base.Ok p' ->
+           (match Abs.model_mate_score (nat_of_int (int_of_string n)) p' with
+            | None -> "NONE" | Some v -> "MATE " ^ string_of_int (int_of_z v)))))
+  | ["LINE"; fen; moves] ->
+    (match start_of fen with Error e -> e | Stdlib.Ok p ->
+      let ms = Stdlib.List.map parse_mv (if moves = "" then [] else Stdlib.String.split_on_char ' ' moves) in
+      if Stdlib.List.exists (fun m -> m = None) ms then "BADTEXT" else
+      let ms = Stdlib.List.map (function Some m -> m | None -> assert false) ms in
+      "LINE " ^ string_of_int (int_of_z (Abs.line_legal p ms Z0)))
   | ["SEARCH"; fen; d; order] -> do_search fen (int_of_string d) order
   | ["MINIMAX"; fen; d] -> do_minimax fen (int_of_string d)
+  | ["MINIMAXS"; fen; d] ->
+    (match start_of fen with Error e -> e | Stdlib.Ok p ->
+      (match Search.minimax_s (nat_of_int (int_of_string d)) p Z0 with
+       | Base.Panic w -> panic_text w
+       | Base.Ok (v, s) -> Printf.sprintf "OK|%d|%d" (int_of_z v) (if s then 1 else 0)))
   | ["TIME"; side; args] -> do_time side args
   | _ -> "BADREQ"
 
+exception Timeout
 let () =
+  let limit = try int_of_string (Sys.getenv "ORACLE_TIMEOUT") with _ -> 25 in
+  Sys.set_signal Sys.sigalrm (Sys.Signal_handle (fun _ -> raise Timeout));
   (try while true do
     let line = input_line stdin in
-    print_string (handle line); print_newline ()
+    let ans = (try ignore (Unix.alarm limit); let a = handle line in ignore (Unix.alarm 0); a
+               with Timeout -> "TIMEOUT" | Stack_overflow -> ignore (Unix.alarm 0); "STACKOVERFLOW") in
+    print_string ans; print_newline ()
   done with End_of_file -> ())
